@@ -1,1 +1,611 @@
-/- C09 — property theorems (to be written) -/
+/-
+  C09 — rank transforms move every point to its image and nothing else.
+  Property theorems only; helper lemmas live in FtProofs/Lemmas/Transform.lean.
+
+  Reading guide.  `swizzle`, `swapFiber`, `mergeLv` (`_mergeRanksHelper`), `unflatLv`
+  (`unflattenRanks`), `atDepth` (`updatePayloads` descent of every `…Below` form) in
+  FtModel/Transform.lean mirror the Python loops; `none` = the implementation raises.
+  `content dflt d t` is the tensor as a map point → value (ascending list of the non-default
+  leaves with their coordinate lists).  The fiber-level functions are generic in the coordinate
+  type; tuple coordinates are `Coord = List Int` (an integer coordinate is a singleton).
+  `z` is `Payload(0)`, the default the implementation falls back to for fibers it creates itself:
+  the theorems that need it assume `z = dflt` (tensor default 0) — the other case is an open
+  finding, see `obligations/C09.json`.
+-/
+import FtProofs.Lemmas.Transform
+import FtProofs.Lemmas.SplitUniform
+import FtProofs.Lemmas.SplitSpec
+set_option linter.unusedSectionVars false
+set_option linter.unusedSimpArgs false
+set_option linter.unusedVariables false
+namespace Ft
+open StrictTotal C09
+
+section generic
+variable {κ : Type} [LT κ] [DecidableRel (α := κ) (· < ·)] [DecidableEq κ] [StrictTotal κ]
+variable {ν : Type} [DecidableEq ν]
+
+/-! ### swizzle -/
+
+/-- **Swizzle.**  For every well-formed tensor (any depth `r + swiz_len`, explicit defaults and
+    empty sub-fibers allowed) and every permutation `g` of the top `k+1 = swiz_len` ranks, the DFS
+    extraction / sort / rebuild of `Tensor.swizzleRanks` yields a well-formed tensor whose content
+    is the original's with every point's coordinates permuted by `g`, in ascending order. -/
+theorem swizzle_content (dflt : ν) (r k : Nat) (g : List Nat) (hg : guideOkB (k + 1) g = true)
+    (t : Tree κ ν (r + (k + 1))) (hw : WF (r + (k + 1)) t) :
+    WF (r + (k + 1)) (swizzle r k g t) ∧
+    content dflt (r + (k + 1)) (swizzle r k g t) = swizzleSpec g (content dflt (r + (k + 1)) t) :=
+  swizzle_wf_content dflt r k g ((guideOkB_iff _ _).1 hg) t hw
+
+example : guideOkB 3 [2, 0, 1] = true := by decide
+
+/-- **Swizzle round trip.**  Swizzling with `g` and then with a permutation `g'` that undoes it
+    restores the content (an equal tensor; empty sub-fibers of the swizzled ranks are not
+    re-created). -/
+theorem swizzle_inverse (dflt : ν) (r k : Nat) (g g' : List Nat)
+    (hg : guideOkB (k + 1) g = true) (hg' : guideOkB (k + 1) g' = true)
+    (hinv : ∀ p : List κ, p.length = k + 1 → permute g' (permute g p) = p)
+    (t : Tree κ ν (r + (k + 1))) (hw : WF (r + (k + 1)) t) :
+    WF (r + (k + 1)) (swizzle r k g' (swizzle r k g t)) ∧
+    content dflt (r + (k + 1)) (swizzle r k g' (swizzle r k g t)) = content dflt (r + (k + 1)) t := by
+  have G := (guideOkB_iff _ _).1 hg
+  have G' := (guideOkB_iff _ _).1 hg'
+  obtain ⟨w1, c1⟩ := swizzle_wf_content dflt r k g G t hw
+  obtain ⟨w2, c2⟩ := swizzle_wf_content dflt r k g' G' (swizzle r k g t) w1
+  refine ⟨w2, ?_⟩
+  rw [c2, c1]
+  unfold swizzleSpec
+  symm
+  apply eq_isort_of_sorted_perm (content_sorted dflt _ t hw)
+  have hp := isort_perm (κ := List κ) ((content dflt (r + (k + 1)) t).map (fun pv => (permPoint g pv.1, pv.2)))
+  refine List.Perm.trans ?_ (hp.map _).symm
+  rw [List.map_map]
+  have : (content dflt (r + (k + 1)) t).map
+      ((fun pv => (permPoint g' pv.1, pv.2)) ∘ (fun pv => (permPoint g pv.1, pv.2))) =
+      content dflt (r + (k + 1)) t := by
+    conv => rhs; rw [← List.map_id (content dflt (r + (k + 1)) t)]
+    apply List.map_congr_left
+    intro pv hpv
+    obtain ⟨p, v⟩ := pv
+    have hl : p.length = r + (k + 1) := content_point_length dflt _ t (p, v) hpv
+    have htl : (p.take (k + 1)).length = k + 1 := by
+      rw [List.length_take]; omega
+    have hpl : (permute g (p.take (k + 1))).length = k + 1 := by
+      rw [permute_length (fun i hi => by rw [htl]; exact G.2.1 i hi), G.1]
+    show (permPoint g' (permPoint g p), v) = (p, v)
+    have e1 : permPoint g p = permute g (p.take (k + 1)) ++ p.drop (k + 1) := by
+      conv => lhs; rw [← List.take_append_drop (k + 1) p]
+      exact permPoint_append G htl
+    rw [e1, permPoint_append G' hpl, hinv _ htl, List.take_append_drop]
+  rw [this]
+
+/-! ### flatten / merge without collisions -/
+
+/-- **Flatten** (any number of levels, payloads at any depth `r` below, any way of combining
+    coordinates): whenever the new coordinates come out ascending at every level (`monoLvB`,
+    decidable; it holds for the tuple / pair styles, see `flatten_tuple_mono`, and for the linear
+    style on coordinates inside the declared shape), `_mergeRanksHelper` succeeds, never calls the
+    merge function, returns a well-formed fiber, and every point has moved to its image
+    `joinTop` — its first `l+2` coordinates combined, everything else untouched, order preserved.
+    Stated for tensor default 0 (`z = dflt`) and the non-linear code path. -/
+theorem flatten_content_partial (comb : Nat → κ → κ → κ) (mf : List ν → Option ν) (dflt : ν) (r l : Nat)
+    (f : Tree κ ν (r + 2 + l)) (hw : WF (r + 2 + l) f) (hm : monoLvB comb dflt r l f = true) :
+    mergeLv false dflt comb mf dflt r l f = some (flatLv comb dflt r l f) ∧
+    content dflt (r + 1) (flatLv comb dflt r l f) =
+      (content dflt (r + 2 + l) f).map (fun pv => (joinTop comb l pv.1, pv.2)) ∧
+    Sorted (show List (κ × Tree κ ν r) from flatLv comb dflt r l f) :=
+  ⟨mergeLv_mono comb mf dflt r l f ((monoLvB_iff comb dflt r l f).1 hm),
+   content_flatLv comb dflt r l f,
+   ((monoLvB_iff comb dflt r l f).1 hm).sorted⟩
+
+/-! ### merge with collisions (down to the leaves) -/
+
+/-- **Merge reduces colliding points with the merge function.**  For ANY two-rank tree (nothing
+    assumed: any coordinates, explicit defaults, empty sub-fibers), any way `comb` of combining
+    the two coordinates (absolute, relative, linear, tuple …) and any `merge_fn`:
+    `_mergeRanksHelper(levels=1)` returns the fiber whose coordinates are exactly the new
+    coordinates of the presented (non-default) points, ascending, each once (`G`), and whose
+    payload at a coordinate is the value itself when a single point got it, otherwise `merge_fn`
+    of the colliding values in traversal order (`foldVals`); it raises iff `merge_fn` does
+    (`flattenRanks`: iff there is a collision). -/
+theorem merge_leaf_spec (comb : κ → κ → κ) (mf : List ν → Option ν) (z dflt : ν) (f : Tree κ ν 2) :
+    ∃ G : Fib κ (List ν), Sorted G ∧
+      (∀ row ∈ G, row.2 = valsAt (leafPairs comb dflt f) row.1 ∧ row.2 ≠ []) ∧
+      (∀ c, HasKey G c ↔ HasKey (leafPairs comb dflt f) c) ∧
+      merge2 comb mf z dflt 0 f =
+        (mapM? (fun row => (foldVals mf row.2).map (fun v => (row.1, v))) G).map
+          (fun l => show Tree κ ν 1 from l) := by
+  -- the groups the implementation builds (payloads tagged with their default)
+  have hrows : pairsOf comb ((show List (κ × Tree κ ν 1) from f).map
+      (fun e => (e.1, tagWith dflt (present dflt 0 e.2)))) = tagWith dflt (leafPairs comb dflt f) := by
+    have e := pairsOf_map_tag comb dflt ((show List (κ × Tree κ ν 1) from f).map
+      (fun e => (e.1, (show List (κ × ν) from present dflt 0 e.2))))
+    rw [List.map_map] at e
+    exact e
+  obtain ⟨hs, hr, hk⟩ := gather_spec comb ((show List (κ × Tree κ ν 1) from f).map
+      (fun e => (e.1, tagWith dflt (present dflt 0 e.2))))
+  rw [hrows] at hr hk
+  refine ⟨(gather comb ((show List (κ × Tree κ ν 1) from f).map
+      (fun e => (e.1, tagWith dflt (present dflt 0 e.2))))).map
+        (fun row => (row.1, row.2.map (fun t => (show ν from t.1)))), ?_, ?_, ?_, ?_⟩
+  · unfold Sorted
+    rw [List.pairwise_map]
+    exact hs
+  · intro row hrow
+    obtain ⟨row', hrow', rfl⟩ := List.mem_map.1 hrow
+    have := hr row' hrow'
+    have key : row'.2.map (fun t => (show ν from t.1)) = valsAt (leafPairs comb dflt f) row'.1 := by
+      refine (congrArg (List.map (fun t : Tree κ ν 0 × ν => (show ν from t.1))) this.1).trans ?_
+      refine (congrArg (List.map (fun t : ν × ν => t.1))
+        (valsAt_tagWith dflt (leafPairs comb dflt f) row'.1)).trans ?_
+      rw [List.map_map]
+      conv => rhs; rw [← List.map_id (valsAt (leafPairs comb dflt f) row'.1)]
+      apply List.map_congr_left
+      intro x _; rfl
+    refine ⟨key, ?_⟩
+    show row'.2.map _ ≠ []
+    intro h
+    exact this.2 (List.map_eq_nil_iff.1 h)
+  · intro c
+    have h1 : HasKey ((gather comb ((show List (κ × Tree κ ν 1) from f).map
+        (fun e => (e.1, tagWith dflt (present dflt 0 e.2))))).map
+          (fun row => (row.1, row.2.map (fun t => (show ν from t.1))))) c ↔
+        HasKey (gather comb ((show List (κ × Tree κ ν 1) from f).map
+          (fun e => (e.1, tagWith dflt (present dflt 0 e.2))))) c := by
+      constructor
+      · rintro ⟨row, hrow, rfl⟩
+        obtain ⟨row', hrow', rfl⟩ := List.mem_map.1 hrow
+        exact ⟨row', hrow', rfl⟩
+      · rintro ⟨row', hrow', rfl⟩
+        exact ⟨_, List.mem_map.2 ⟨row', hrow', rfl⟩, rfl⟩
+    have h2 : HasKey (tagWith dflt (leafPairs comb dflt f)) c ↔ HasKey (leafPairs comb dflt f) c := by
+      unfold tagWith
+      constructor
+      · rintro ⟨x, hx, rfl⟩
+        obtain ⟨y, hy, rfl⟩ := List.mem_map.1 hx
+        exact ⟨y, hy, rfl⟩
+      · rintro ⟨y, hy, rfl⟩
+        exact ⟨_, List.mem_map.2 ⟨y, hy, rfl⟩, rfl⟩
+    exact h1.trans ((hk c).trans h2)
+  · have hfinal : ∀ a ∈ gather comb ((show List (κ × Tree κ ν 1) from f).map
+          (fun e => (e.1, tagWith dflt (present dflt 0 e.2)))),
+        ((mergeTrees mf z 0 a.2).map (fun t => (a.1, t))).map
+            (fun e : κ × (Tree κ ν 0 × ν) => ((e.1, (show ν from e.2.1)) : κ × ν)) =
+          (foldVals mf (a.2.map (fun t => (show ν from t.1)))).map (fun v => (a.1, v)) := by
+      intro a ha
+      have hv : a.2 = (valsAt (leafPairs comb dflt f) a.1).map (fun v => ((show Tree κ ν 0 from v), dflt)) :=
+        (hr a ha).1.trans (valsAt_tagWith dflt (leafPairs comb dflt f) a.1)
+      obtain ⟨c, l⟩ := a
+      simp only [] at hv
+      subst hv
+      have hl := mergeTrees_leaf (κ := κ) mf z dflt (valsAt (leafPairs comb dflt f) c)
+      have hm : (List.map (fun v => ((show Tree κ ν 0 from v), dflt)) (valsAt (leafPairs comb dflt f) c)).map
+          (fun t : Tree κ ν 0 × ν => (show ν from t.1)) = valsAt (leafPairs comb dflt f) c := by
+        rw [List.map_map]
+        conv => rhs; rw [← List.map_id (valsAt (leafPairs comb dflt f) c)]
+        apply List.map_congr_left
+        intro x _; rfl
+      have e1 : foldVals mf ((List.map (fun v => ((show Tree κ ν 0 from v), dflt)) (valsAt (leafPairs comb dflt f) c)).map
+          (fun t : Tree κ ν 0 × ν => (show ν from t.1))) = foldVals mf (valsAt (leafPairs comb dflt f) c) :=
+        congrArg (foldVals mf) hm
+      refine Eq.trans ?_ (congrArg (Option.map (fun v => (c, v))) (hl.trans e1.symm))
+      show Option.map (fun e : κ × (Tree κ ν 0 × ν) => ((e.1, (show ν from e.2.1)) : κ × ν))
+          (Option.map (fun t => (c, t)) (mergeTrees (κ := κ) mf z 0
+            (List.map (fun v => ((show Tree κ ν 0 from v), dflt)) (valsAt (leafPairs comb dflt f) c)))) =
+        Option.map (fun v => (c, v)) (Option.map (fun t : Tree κ ν 0 × ν => (show ν from t.1))
+          (mergeTrees (κ := κ) mf z 0
+            (List.map (fun v => ((show Tree κ ν 0 from v), dflt)) (valsAt (leafPairs comb dflt f) c))))
+      generalize mergeTrees (κ := κ) mf z 0
+        (List.map (fun v => ((show Tree κ ν 0 from v), dflt)) (valsAt (leafPairs comb dflt f) c)) = o
+      cases o <;> rfl
+    unfold merge2 merge2T mergeRows
+    rw [mapM?_map_in, ← mapM?_congr _ hfinal, ← mapM?_map_out]
+    cases mapM? (fun row => (mergeTrees mf z 0 row.2).map (fun t => (row.1, t)))
+      (gather comb ((show List (κ × Tree κ ν 1) from f).map
+        (fun e => (e.1, tagWith dflt (present dflt 0 e.2))))) <;> rfl
+
+/-! ### unflatten -/
+
+/-- **Unflatten** (any number of levels): on a well-formed fiber with at least one element whose
+    tuple coordinates are ordered lexicographically by (first component, rest) — `LexSplit`,
+    true for Python tuples, see `lexSplit_coord` — `unflattenRanks` succeeds, returns a
+    well-formed fiber and every point has moved to its image `splitTop` (first coordinate split
+    into `l+2` coordinates), order preserved. -/
+theorem unflatten_content (dflt : ν) (hd tl : κ → κ) (hH : LexSplit hd tl) (r l : Nat)
+    (f : Tree κ ν (r + 1)) (hne : (show List (κ × Tree κ ν r) from f) ≠ []) (hw : WF (r + 1) f) :
+    ∃ g, unflatLv hd tl r l f = some g ∧ WF (r + 2 + l) g ∧
+      content dflt (r + 2 + l) g =
+        (content dflt (r + 1) f).map (fun pv => (splitTop hd tl l pv.1, pv.2)) :=
+  unflatLv_spec dflt hd tl hH r l f hne hw
+
+/-- `self.coords[0]` of `unflattenRanks` raises on a fiber without elements (this is what makes
+    `Tensor.unflattenRanks(depth ≥ 1)` fail on a tree with an empty sub-fiber — open finding) -/
+theorem unflatten_empty_raises (hd tl : κ → κ) (r l : Nat) :
+    unflatLv (ν := ν) hd tl r l (show Tree κ ν (r + 1) from ([] : List (κ × Tree κ ν r))) = none := by
+  cases l <;> rfl
+
+/-! ### every depth -/
+
+/-- **Every depth.**  What a fiber-level transform `g` does to every fiber at depth `k` (succeeds,
+    well-formed result, content = the `φ`-image) the `…Below` / `depth=k` form does to the whole
+    tree, with `φ` applied below the first `k` coordinates — for every `k`, every tree, empty
+    sub-fibers and explicit defaults included (`updatePayloads` visits every stored payload at
+    its own position). -/
+theorem transform_at_depth (dflt dflt' : ν) (a b : Nat) (g : Tree κ ν a → Option (Tree κ ν b))
+    (φ : List κ → List κ) (k : Nat) (t : Tree κ ν (a + k)) (hw : WF (a + k) t)
+    (h : ∀ s ∈ subsAt a k t, WF a s → ∃ s', g s = some s' ∧ WF b s' ∧
+        content dflt' b s' = (content dflt a s).map (fun pv => (φ pv.1, pv.2))) :
+    ∃ t', atDepth g k t = some t' ∧ WF (b + k) t' ∧
+      content dflt' (b + k) t' = (content dflt (a + k) t).map (fun pv => (liftN φ k pv.1, pv.2)) :=
+  atDepth_spec_eq dflt dflt' a b g φ k t hw h
+
+/-- the same for transforms that reorder (swap): content up to permutation, hence — the result
+    being well-formed — the ascending arrangement of the images -/
+theorem transform_at_depth_sorted (dflt dflt' : ν) (a b : Nat) (g : Tree κ ν a → Option (Tree κ ν b))
+    (φ : List κ → List κ) (k : Nat) (t : Tree κ ν (a + k)) (hw : WF (a + k) t)
+    (h : ∀ s ∈ subsAt a k t, WF a s → ∃ s', g s = some s' ∧ WF b s' ∧
+        (content dflt' b s').Perm ((content dflt a s).map (fun pv => (φ pv.1, pv.2)))) :
+    ∃ t', atDepth g k t = some t' ∧ WF (b + k) t' ∧
+      content dflt' (b + k) t' =
+        isort (κ := List κ) ((content dflt (a + k) t).map (fun pv => (liftN φ k pv.1, pv.2))) := by
+  obtain ⟨t', h1, h2, h3⟩ := atDepth_spec_perm dflt dflt' a b g φ k t hw h
+  exact ⟨t', h1, h2, content_eq_isort_of_perm h2 h3⟩
+
+end generic
+
+/-! ### tuple coordinates: the tuple / pair styles, unflatten ∘ flatten, swap -/
+
+section tuples
+variable {α : Type} [LT α] [DecidableRel (α := α) (· < ·)] [DecidableEq α] [StrictTotal α]
+variable {ν : Type} [DecidableEq ν]
+
+/-- Python's tuple order splits lexicographically into (first component, rest) -/
+theorem lexSplit_coord : LexSplit (κ := List α) (fun c => c.take 1) (fun c => c.drop 1) :=
+  lexSplit_list
+
+/-- **The tuple and pair styles never collide**: on every well-formed tree whose ranks hold
+    coordinates of uniform arity (`UpperAr`; arity 1 = integer coordinates) the hypothesis of
+    `flatten_content_partial` holds, for any number of levels and any payload depth. -/
+theorem flatten_tuple_mono (dflt : ν) (r l : Nat) (ar : List Nat) (f : Tree (List α) ν (r + 2 + l))
+    (hw : WF (r + 2 + l) f) (har : upperArB r l ar f = true) :
+    monoLvB (tupleComb (α := α)) dflt r l f = true :=
+  (monoLvB_iff _ dflt r l f).2 (monoLv_tuple dflt r l ar f hw ((upperArB_iff r l ar f).1 har))
+
+/-- **Unflatten inverts flatten** (tuple / pair style, any number of levels, any payload depth):
+    for a well-formed non-empty tree with integer coordinates on the flattened ranks,
+    unflattening the flattened fiber succeeds, is well-formed and has the original's content
+    (explicit defaults and empty sub-fibers of the flattened ranks are not re-created). -/
+theorem unflatten_flatten (dflt : ν) (r l : Nat) (f : Tree (List α) ν (r + 2 + l))
+    (hw : WF (r + 2 + l) f) (har' : upperArB r l (List.replicate (l + 1) 1) f = true)
+    (hne : isEmpty dflt (r + 2 + l) f = false) :
+    ∃ g, unflatLv (fun c => c.take 1) (fun c => c.drop 1) r l (flatLv (tupleComb (α := α)) dflt r l f) = some g ∧
+      WF (r + 2 + l) g ∧ content dflt (r + 2 + l) g = content dflt (r + 2 + l) f := by
+  have har := (upperArB_iff r l _ f).1 har'
+  have hm := monoLv_tuple dflt r l _ f hw har
+  have hwf := flatLv_wf (tupleComb (α := α)) dflt r l f hw hm
+  have hc := content_flatLv (tupleComb (α := α)) dflt r l f
+  have hne' : (show List (List α × Tree (List α) ν r) from flatLv (tupleComb (α := α)) dflt r l f) ≠ [] := by
+    intro h
+    have : content dflt (r + 1) (flatLv (tupleComb (α := α)) dflt r l f) = [] := by
+      show List.flatMap _ (show List (List α × Tree (List α) ν r) from flatLv tupleComb dflt r l f) = []
+      rw [h]; rfl
+    rw [hc, List.map_eq_nil_iff] at this
+    rw [(isEmpty_iff_content dflt _ f).2 this] at hne
+    cases hne
+  obtain ⟨g, hg, hgw, hgc⟩ := unflatLv_spec dflt _ _ (lexSplit_list (α := α)) r l _ hne' hwf
+  refine ⟨g, hg, hgw, ?_⟩
+  rw [hgc, hc, List.map_map]
+  conv => rhs; rw [← List.map_id (content dflt (r + 2 + l) f)]
+  apply List.map_congr_left
+  intro pv hpv
+  obtain ⟨p, v⟩ := pv
+  have hl : p.length = r + 2 + l := content_point_length dflt _ f (p, v) hpv
+  have hone : ∀ c ∈ p.take (l + 1), c.length = 1 := fun c hc =>
+    List.eq_of_mem_replicate (upperAr_points dflt r l _ f har (p, v) hpv c hc)
+  show (splitTop _ _ l (joinTop tupleComb l p), v) = (p, v)
+  rw [(splitTop_joinTop l p (by omega) hone).1]
+
+/-- **Flatten at every depth** (Tensor.flattenRanks(depth=k, levels=l+1, tuple / pair style)) —
+    partial: stated for tensor default 0 (`z = dflt`) and for trees on which the active-range
+    bookkeeping of `_mergeRanksHelper` does not raise (`actNest`; it never does for levels ≤ 2).
+    Then, for every depth `k`, every number of levels and every payload depth `r`, on every
+    well-formed tree with coordinates of uniform arity on the flattened ranks: the transform
+    succeeds, the result is well-formed, and every point has moved to its image (the coordinates
+    `k … k+l+1` concatenated, all others untouched), nothing else changes, order preserved. -/
+theorem flattenT_tuple_content_partial (mf : List ν → Option ν) (dflt : ν) (r l k : Nat) (ar : List Nat)
+    (t : Tree (List α) ν (r + 2 + l + k)) (hw : WF (r + 2 + l + k) t)
+    (har : (subsAt (r + 2 + l) k t).all (fun s => upperArB r l ar s && (actNest r l s).isSome) = true) :
+    ∃ t', mergeT true false dflt (tupleComb (α := α)) mf dflt r l k t = some t' ∧ WF (r + 1 + k) t' ∧
+      content dflt (r + 1 + k) t' =
+        (content dflt (r + 2 + l + k) t).map (fun pv => (liftN (joinTop (tupleComb (α := α)) l) k pv.1, pv.2)) := by
+  unfold mergeT
+  apply atDepth_spec_eq dflt dflt (r + 2 + l) (r + 1) _ (joinTop (tupleComb (α := α)) l) k t hw
+  intro s hs hws
+  have hs' := List.all_eq_true.1 har s hs
+  rw [Bool.and_eq_true] at hs'
+  have hm := monoLv_tuple dflt r l ar s hws ((upperArB_iff r l ar s).1 hs'.1)
+  refine ⟨flatLv (tupleComb (α := α)) dflt r l s, ?_, flatLv_wf _ dflt r l s hws hm, content_flatLv _ dflt r l s⟩
+  unfold mergeLvA
+  have : (actNest r l s).isNone = false := by
+    cases h : actNest r l s with
+    | none => rw [h] at hs'; simp at hs'
+    | some _ => rfl
+  rw [this]
+  simp only [Bool.and_false, Bool.false_eq_true, if_false]
+  exact mergeLv_mono _ mf dflt r l s hm
+
+/-- **Swap is the adjacent swizzle.**  `Fiber.swapRanks` (flatten with style pair, sort on the
+    reversed pair, unflatten) on a well-formed non-empty fiber with integer coordinates on its top
+    two ranks succeeds, is well-formed, and its content is the original's with the first two
+    coordinates of every point exchanged — the specification of `swizzle` for the permutation
+    `[1, 0]`; payloads at any depth `r` below. -/
+theorem swap_is_adjacent_swizzle (dflt : ν) (r : Nat) (f : Tree (List α) ν (r + 2))
+    (hw : WF (r + 2) f) (hint' : int2B r f = true) (hne : isEmpty dflt (r + 2) f = false) :
+    ∃ g, swapFiber (fun a b => a ++ b) List.reverse (fun c => c.take 1) (fun c => c.drop 1) dflt r f = some g ∧
+      WF (r + 2) g ∧ content dflt (r + 2) g = swizzleSpec [1, 0] (content dflt (r + 2) f) := by
+  have hint := (int2B_iff r f).1 hint'
+  have hmono : Sorted (show List (List α × Tree (List α) ν r) from flat2 (fun a b => a ++ b) dflt r f) :=
+    monoLv_tuple dflt r 0 [1] f hw (fun e he => (hint e he).1)
+  obtain ⟨g, hg, hgw, hgc⟩ := swapFiber_spec (fun a b => a ++ b) List.reverse _ _ (lexSplit_list (α := α))
+    dflt r f hw hmono hne (fun a _ b _ h => List.reverse_inj.1 h)
+  refine ⟨g, hg, hgw, ?_⟩
+  unfold swizzleSpec
+  apply content_eq_isort_of_perm hgw
+  refine hgc.trans (List.Perm.of_eq ?_)
+  apply List.map_congr_left
+  intro pv hpv
+  -- the point is `[a] :: [b] :: rest`
+  have hpv' : pv ∈ (show List (List α × Tree (List α) ν (r + 1)) from f).flatMap
+      (fun e => pre e.1 (content dflt (r + 1) e.2)) := hpv
+  obtain ⟨e, he, hpe⟩ := List.mem_flatMap.1 hpv'
+  obtain ⟨y, hy, rfl⟩ := mem_pre hpe
+  have hy' : y ∈ (show List (List α × Tree (List α) ν r) from e.2).flatMap
+      (fun x => pre x.1 (content dflt r x.2)) := hy
+  obtain ⟨x, hx, hyx⟩ := List.mem_flatMap.1 hy'
+  obtain ⟨w, _, rfl⟩ := mem_pre hyx
+  have h1 := (hint e he).1
+  have h2 := (hint e he).2 x hx
+  match e.1, x.1, h1, h2 with
+  | [a], [b], _, _ => rfl
+
+/-- **Swap at every depth** (Tensor.swapRanks(depth=k)) — partial: stated for trees in which no
+    fiber at depth `k` is empty (with an empty one next to a non-empty one the implementation
+    raises `AssertionError` — open finding).  Then for every `k` and every payload depth `r`, on
+    every well-formed tree with integer coordinates on ranks `k`, `k+1`: the transform succeeds,
+    the result is well-formed and its content is the original's with coordinates `k` and `k+1` of
+    every point exchanged, in ascending order. -/
+theorem swapT_content_partial (dflt : ν) (r k : Nat) (t : Tree (List α) ν (r + 2 + k)) (hw : WF (r + 2 + k) t)
+    (hsome : allEmptyAt dflt (r + 1) k t = false)
+    (hsub : (subsAt (r + 2) k t).all (fun s => int2B r s && !isEmpty dflt (r + 2) s) = true) :
+    ∃ t', swapT (fun a b => a ++ b) List.reverse (fun c => c.take 1) (fun c => c.drop 1) dflt r k t = some t' ∧
+      WF (r + 2 + k) t' ∧
+      content dflt (r + 2 + k) t' = isort (κ := List (List α))
+        ((content dflt (r + 2 + k) t).map (fun pv => (liftN (permPoint [1, 0]) k pv.1, pv.2))) := by
+  unfold swapT
+  rw [hsome]
+  simp only [Bool.false_eq_true, if_false]
+  apply transform_at_depth_sorted dflt dflt (r + 2) (r + 2) _ (permPoint [1, 0]) k t hw
+  intro s hs hws
+  have hs' := List.all_eq_true.1 hsub s hs
+  rw [Bool.and_eq_true] at hs'
+  obtain ⟨g, hg, hgw, hgc⟩ := swap_is_adjacent_swizzle dflt r s hws hs'.1 (by simpa using hs'.2)
+  refine ⟨g, hg, hgw, ?_⟩
+  rw [hgc]
+  exact isort_perm _
+
+/-- **Unflatten at every depth** (Tensor.unflattenRanks(depth=k, levels=l+1)) — partial: stated
+    for trees in which no fiber at depth `k` is without elements (otherwise `IndexError` — open
+    finding) and for the tree only (the result tensor's default is not carried over — open
+    finding).  Then for every `k`, `l`, `r`: success, a well-formed result, every point moved to
+    its image (coordinate `k` split into `l+2` coordinates), order preserved. -/
+theorem unflattenT_content_partial (dflt : ν) (r l k : Nat) (t : Tree (List α) ν (r + 1 + k))
+    (hw : WF (r + 1 + k) t) (hsome : allEmptyAt dflt r k t = false)
+    (hsub : (subsAt (r + 1) k t).all
+      (fun s => !(show List (List α × Tree (List α) ν r) from s).isEmpty) = true) :
+    ∃ t', unflattenT (fun c => c.take 1) (fun c => c.drop 1) dflt r l k t = some t' ∧
+      WF (r + 2 + l + k) t' ∧
+      content dflt (r + 2 + l + k) t' = (content dflt (r + 1 + k) t).map
+        (fun pv => (liftN (splitTop (fun c => c.take 1) (fun c => c.drop 1) l) k pv.1, pv.2)) := by
+  unfold unflattenT
+  rw [hsome]
+  simp only [Bool.false_eq_true, if_false]
+  apply transform_at_depth dflt dflt (r + 1) (r + 2 + l) _ _ k t hw
+  intro s hs hws
+  have hs' := List.all_eq_true.1 hsub s hs
+  exact unflatLv_spec dflt _ _ (lexSplit_list (α := α)) r l s
+    (fun h => by rw [h] at hs'; simp at hs') hws
+
+end tuples
+
+/-! ### flattening a split with absolute coordinates restores the original -/
+
+section split
+variable {ν : Type} [DecidableEq ν]
+
+/-- **Flattening a uniform split with absolute coordinates restores the original.**  For every
+    positive step, every well-formed fiber (payloads at any depth, explicit defaults and empty
+    sub-fibers allowed) whose presented elements lie in the active range: the split of C08
+    (`splitFiber`, halo 0, absolute coordinates) succeeds, and merging its two ranks with the
+    absolute style — `flattenRanks(coord_style="absolute")`, raising merge function — returns
+    exactly the presented elements of the original, hence the original's content. -/
+theorem flattenAbs_split_id (step as ae : Int) (hstep : 0 < step) (hact : as < ae) (z dflt : ν) (r : Nat)
+    (f : Tree Int ν (r + 1)) (hw : WF (r + 1) f)
+    (hin : ∀ e ∈ present dflt r f, as ≤ e.1 ∧ e.1 < ae) :
+    ∃ u, splitFiber { op := .uniform step, act := some (as, ae) } dflt r f = some u ∧
+      merge2 (fun _ c => c) mfRaise z dflt r u = some (show Tree Int ν (r + 1) from present dflt r f) ∧
+      content dflt (r + 1) (show Tree Int ν (r + 1) from present dflt r f) = content dflt (r + 1) f := by
+  have hps : Sorted (present dflt r f) := present_sorted hw.1
+  have hsplit : splitFiberParts { op := .uniform step, act := some (as, ae) } dflt r f =
+      some (uSpec step 0 0 as ae false (present dflt r f)) :=
+    splitUniformIter_eq step 0 0 as ae hstep hact (Int.le_refl 0) (Int.le_refl 0) false _ hps
+  have hloss := uSpec_lossless step as ae hstep (present dflt r f) hps
+  have hfilt : (present dflt r f).filter (fun e => decide (as ≤ e.1) && decide (e.1 < ae)) =
+      present dflt r f := by
+    rw [List.filter_eq_self]
+    intro e he
+    simp [(hin e he).1, (hin e he).2]
+  rw [hfilt] at hloss
+  refine ⟨partsTree r (uSpec step 0 0 as ae false (present dflt r f)), ?_, ?_, ?_⟩
+  · unfold splitFiber; rw [hsplit]; rfl
+  · -- the flattening of the parts is the concatenation of their (presented) elements
+    have hflat : (show List (Int × Tree Int ν r) from
+        flat2 (fun _ c => c) dflt r (partsTree r (uSpec step 0 0 as ae false (present dflt r f)))) =
+        present dflt r f := by
+      refine Eq.trans ?_ hloss
+      unfold flat2 pairsOf partsTree
+      show List.flatMap _ (List.map _ (List.map _ _)) = _
+      rw [List.map_map, List.flatMap_map]
+      have fm_congr : ∀ (L : List (Part (Tree Int ν r))) (F G : Part (Tree Int ν r) → List (Int × Tree Int ν r)),
+          (∀ p ∈ L, F p = G p) → L.flatMap F = L.flatMap G := by
+        intro L F G h
+        induction L with
+        | nil => rfl
+        | cons p L ih =>
+          rw [List.flatMap_cons, List.flatMap_cons, h p (List.mem_cons_self ..),
+            ih (fun q hq => h q (List.mem_cons_of_mem _ hq))]
+      apply fm_congr
+      intro p hp
+      show List.map _ (present dflt r (show Tree Int ν (r + 1) from p.elems)) = p.elems
+      have hall : ∀ x ∈ p.elems, isEmpty dflt r x.2 = false := by
+        intro x hx
+        have : x ∈ present dflt r f := by
+          rw [← hloss]; exact List.mem_flatMap.2 ⟨p, hp, hx⟩
+        have := (List.mem_filter.1 this).2
+        simpa using this
+      have : present dflt r (show Tree Int ν (r + 1) from p.elems) = p.elems := by
+        unfold present
+        rw [List.filter_eq_self]
+        intro x hx
+        simp [hall x hx]
+      rw [this]
+      conv => rhs; rw [← List.map_id p.elems]
+      apply List.map_congr_left
+      intro x _; rfl
+    unfold merge2
+    rw [merge2T_sorted (fun _ c => c) mfRaise z dflt r _ (by rw [hflat]; exact hps)]
+    show some (untag (tagWith dflt _)) = _
+    rw [untag_tagWith, hflat]
+    rfl
+  · exact (content_present dflt r f).symm ▸ rfl
+
+end split
+
+/-! ### the hypotheses are satisfiable by non-trivial values (and what the theorems then say) -/
+
+namespace C09.Ex
+abbrev TI := Tree Int Int
+abbrev TC := Tree Coord Int
+
+/-- ranks A,B,C with an explicit default (A=1,B=0,C=1), an empty C fiber (A=1,B=3) and an empty
+    B fiber (A=2) -/
+def tI : TI 3 := show List (Int × TI 2) from
+  [(0, show List (Int × TI 1) from [(0, show List (Int × TI 0) from [(0, (1 : Int)), (2, (2 : Int))]),
+                                     (1, show List (Int × TI 0) from [(1, (3 : Int))])]),
+   (1, show List (Int × TI 1) from [(0, show List (Int × TI 0) from [(0, (4 : Int)), (1, (0 : Int))]),
+                                     (3, show List (Int × TI 0) from [])]),
+   (2, show List (Int × TI 1) from [])]
+
+/-- the same tensor with its integer coordinates as 1-tuples -/
+def tC : TC 3 := show List (Coord × TC 2) from
+  [([0], show List (Coord × TC 1) from [([0], show List (Coord × TC 0) from [([0], (1 : Int)), ([2], (2 : Int))]),
+                                        ([1], show List (Coord × TC 0) from [([1], (3 : Int))])]),
+   ([1], show List (Coord × TC 1) from [([0], show List (Coord × TC 0) from [([0], (4 : Int)), ([1], (0 : Int))]),
+                                        ([3], show List (Coord × TC 0) from [])]),
+   ([2], show List (Coord × TC 1) from [])]
+
+def mkC1 (l : List (Coord × Int)) : TC 1 := l
+def mkI1 (l : List (Int × Int)) : TI 1 := l
+
+theorem tI_wf : WF 3 tI := (wfB_iff 3 tI).1 (by decide)
+theorem tC_wf : WF 3 tC := (wfB_iff 3 tC).1 (by decide)
+
+-- swizzle (A,B,C) → (C,A,B)
+example : content (0 : Int) 3 (swizzle 0 2 [2, 0, 1] tI) = swizzleSpec [2, 0, 1] (content (0 : Int) 3 tI) :=
+  (swizzle_content (0 : Int) 0 2 [2, 0, 1] (by decide) tI tI_wf).2
+example : content (0 : Int) 3 (swizzle 0 2 [2, 0, 1] tI) =
+    [([0, 0, 0], 1), ([0, 1, 0], 4), ([1, 0, 1], 3), ([2, 0, 0], 2)] := by decide
+-- … and back with (B,C,A)
+example : content (0 : Int) 3 (swizzle 0 2 [1, 2, 0] (swizzle 0 2 [2, 0, 1] tI)) = content (0 : Int) 3 tI :=
+  (swizzle_inverse (0 : Int) 0 2 [2, 0, 1] [1, 2, 0] (by decide) (by decide)
+    (fun p hp => by
+      match p, hp with
+      | [a, b, c], _ => rfl) tI tI_wf).2
+
+-- flatten all three ranks (levels = 2), tuple style
+example : mergeLv false (0 : Int) (tupleComb (α := Int)) mfRaise 0 0 1 tC =
+    some (mkC1 [([0, 0, 0], 1), ([0, 0, 2], 2), ([0, 1, 1], 3), ([1, 0, 0], 4)]) :=
+  ((flatten_content_partial (tupleComb (α := Int)) mfRaise (0 : Int) 0 1 tC tC_wf
+    (flatten_tuple_mono (0 : Int) 0 1 [1, 1] tC tC_wf (by decide))).1).trans (by decide)
+
+-- unflatten inverts it
+example : ∃ g, unflatLv (fun c => c.take 1) (fun c => c.drop 1) 0 1
+      (flatLv (tupleComb (α := Int)) (0 : Int) 0 1 tC) = some g ∧ WF 3 g ∧
+      content (0 : Int) 3 g = content (0 : Int) 3 tC :=
+  unflatten_flatten (0 : Int) 0 1 tC tC_wf (by decide) (by decide)
+
+-- unflatten of a directly built fiber with 2-tuple coordinates, an explicit default kept
+example : ∃ g, unflatLv (fun c => c.take 1) (fun c => c.drop 1) 0 0
+      (mkC1 [([0, 1], 5), ([0, 2], 0), ([1, 0], 7)]) = some g ∧ WF 2 g ∧
+      content (0 : Int) 2 g = [([[0], [1]], 5), ([[1], [0]], 7)] :=
+  unflatten_content (0 : Int) _ _ lexSplit_coord 0 0 _ (by decide) ((wfB_iff 1 _).1 (by decide))
+
+-- swap A and B
+example : ∃ g, swapFiber (fun a b => a ++ b) List.reverse (fun c => c.take 1) (fun c => c.drop 1) (0 : Int) 1 tC = some g ∧
+      WF 3 g ∧ content (0 : Int) 3 g = swizzleSpec [1, 0] (content (0 : Int) 3 tC) :=
+  swap_is_adjacent_swizzle (0 : Int) 1 tC tC_wf (by decide) (by decide)
+example : swizzleSpec [1, 0] (content (0 : Int) 3 tC) =
+    [([[0], [0], [0]], 1), ([[0], [0], [2]], 2), ([[0], [1], [0]], 4), ([[1], [0], [1]], 3)] := by decide
+
+-- split the leaf rank of a fiber uniformly by 2, flatten with absolute coordinates
+example : ∃ u, splitFiber { op := .uniform 2, act := some (0, 6) } (0 : Int) 0
+      (mkI1 [(0, 1), (1, 0), (3, 2), (4, 5)]) = some u ∧
+      merge2 (fun _ c => c) mfRaise (0 : Int) 0 0 u = some (mkI1 [(0, 1), (3, 2), (4, 5)]) ∧
+      content (0 : Int) 1 (mkI1 [(0, 1), (3, 2), (4, 5)]) =
+        content (0 : Int) 1 (mkI1 [(0, 1), (1, 0), (3, 2), (4, 5)]) :=
+  flattenAbs_split_id 2 0 6 (by decide) (by decide) (0 : Int) (0 : Int) 0 _ ((wfB_iff 1 _).1 (by decide))
+    (by decide)
+
+-- every depth: flatten ranks B,C below rank A (depth = 1); the empty B fiber at A=2 stays
+example : ∃ t', mergeT true false (0 : Int) (tupleComb (α := Int)) mfRaise 0 0 0 1 tC = some t' ∧ WF 2 t' ∧
+      content (0 : Int) 2 t' =
+        (content (0 : Int) 3 tC).map (fun pv => (liftN (joinTop (tupleComb (α := Int)) 0) 1 pv.1, pv.2)) :=
+  flattenT_tuple_content_partial mfRaise (0 : Int) 0 0 1 [1] tC tC_wf (by decide)
+example : (content (0 : Int) 3 tC).map (fun pv => (liftN (joinTop (tupleComb (α := Int)) 0) 1 pv.1, pv.2)) =
+    [([[0], [0, 0]], 1), ([[0], [0, 2]], 2), ([[0], [1, 1]], 3), ([[1], [0, 0]], 4)] := by decide
+
+-- swap B and C below A (depth = 1) on a tree without empty fibers at depth 1
+def tD : TC 3 := show List (Coord × TC 2) from
+  [([0], show List (Coord × TC 1) from [([0], mkC1 [([0], 1), ([2], 2)]), ([1], mkC1 [([0], 3)])]),
+   ([1], show List (Coord × TC 1) from [([5], mkC1 [([1], 4), ([2], 0)])])]
+example : ∃ t', swapT (fun a b => a ++ b) List.reverse (fun c => c.take 1) (fun c => c.drop 1) (0 : Int) 0 1 tD = some t' ∧
+      WF 3 t' ∧ content (0 : Int) 3 t' = isort (κ := List Coord)
+        ((content (0 : Int) 3 tD).map (fun pv => (liftN (permPoint [1, 0]) 1 pv.1, pv.2))) :=
+  swapT_content_partial (0 : Int) 0 1 tD ((wfB_iff 3 tD).1 (by decide)) (by decide) (by decide)
+example : isort (κ := List Coord)
+      ((content (0 : Int) 3 tD).map (fun pv => (liftN (permPoint [1, 0]) 1 pv.1, pv.2))) =
+    [([[0], [0], [0]], 1), ([[0], [0], [1]], 3), ([[0], [2], [0]], 2), ([[1], [1], [5]], 4)] := by decide
+
+-- unflatten rank 1 (2-tuples) below rank 0
+def tU : TC 2 := show List (Coord × TC 1) from
+  [([0], mkC1 [([0, 1], 5), ([1, 0], 0), ([1, 2], 6)]), ([3], mkC1 [([2, 2], 7)])]
+example : ∃ t', unflattenT (fun c => c.take 1) (fun c => c.drop 1) (0 : Int) 0 0 1 tU = some t' ∧ WF 3 t' ∧
+      content (0 : Int) 3 t' = (content (0 : Int) 2 tU).map
+        (fun pv => (liftN (splitTop (fun c => c.take 1) (fun c => c.drop 1) 0) 1 pv.1, pv.2)) :=
+  unflattenT_content_partial (0 : Int) 0 0 1 tU ((wfB_iff 2 tU).1 (by decide)) (by decide) (by decide)
+
+-- merge ranks A,B of a two-rank tensor with absolute coordinates and the default merge function:
+-- B=0 collides (1+4), B=2 collides (2-2 = 0 is stored explicitly), the explicit default at B=1 is skipped
+def tM : TI 2 := show List (Int × TI 1) from
+  [(0, mkI1 [(0, 1), (2, 2)]), (1, mkI1 [(0, 4), (1, 0), (2, -2)])]
+example : merge2 (fun _ c => c) mfSum (0 : Int) 0 0 tM = some (mkI1 [(0, 5), (2, 0)]) := by decide
+example : leafPairs (fun _ c => c) (0 : Int) tM = [(0, 1), (2, 2), (0, 4), (2, -2)] := by decide
+example : ∃ G : Fib Int (List Int), Sorted G ∧
+      (∀ row ∈ G, row.2 = valsAt (leafPairs (fun _ c => c) (0 : Int) tM) row.1 ∧ row.2 ≠ []) ∧
+      (∀ c, HasKey G c ↔ HasKey (leafPairs (fun _ c => c) (0 : Int) tM) c) ∧
+      merge2 (fun _ c => c) mfSum (0 : Int) 0 0 tM =
+        (mapM? (fun row => (foldVals mfSum row.2).map (fun v => (row.1, v))) G).map (fun l => show TI 1 from l) :=
+  merge_leaf_spec (fun _ c => c) mfSum (0 : Int) 0 tM
+
+end C09.Ex
+
+end Ft
